@@ -24,6 +24,14 @@ CLAIMED['C06'] = dict(
    text='Coq theorems (no axioms): any split of the input gives the same result for the resumable VLI decoder model (and it equals the one-shot decoder), the delta coder, CRC32/CRC64 and the streaming SHA-256; total_in/total_out are exact sums over any call pattern. For the remaining coders the property is decided by differential runs on the real library: every two-piece split of small valid/invalid .xz, .lzma, .lz files, 1-byte input, 1-byte output, random chunks with empty calls (status, bytes consumed, output), and encoder output compared byte for byte across slicings, thread counts 1-4, timeouts, block sizes and textual vs preset filter chains.',
    note='PARTIAL: slicing independence of the LZMA1/LZMA2/Block/Stream/simple_coder state machines and encoder determinism are explored, not proved. A genuine defect found by this check (known-size .lzma with end marker split inside the marker) was repaired in /repo (fix: commit) and is listed under fixed in known_findings.json.',
    technique='Coq proof for simple resumable machines + exhaustive two-piece-split differential runs', ref='§6 C06')
+CLAIMED['C05'] = dict(
+   text='Coq theorems (no axioms): CRC32 / CRC64 never collide on two equal-length messages that differ by a burst of at most 32 / 64 bits (GF(2) linearity + injectivity of the register step), and, on the container specification, any damage to the Stream Flags with the stored CRC32 intact is rejected. The remaining clauses are decided by exhaustive fault enumeration against the real decoders: every single-bit flip and every truncation length of generated .xz (each supported check, multi-Block, multi-Stream with padding), .lz and .lzma files, Stream Padding of every invalid length under many slicings (single- and multi-threaded), and random overwrite/insert/delete; the property predicates are evaluated on the implementation alone and the verdicts compared with the Coq specification.',
+   note='PARTIAL: for arbitrary (non-burst) damage no theorem can exclude check collisions; truncation clause explored exhaustively per file, not proved for all files. lzip trailing-data semantics (a damaged later member becomes ignored trailing data) is exempted as the format defines it.',
+   technique='Coq proof (CRC burst detection) + exhaustive single-fault enumeration', ref='§6 C05')
+CLAIMED['C16'] = dict(
+   text='Executable Coq specifications of .lzma (all four size/end-marker cases, picky mode), .lz (v0/v1, dictionary codes, CRC32/size/member-size, member loop, trailing data) and auto-detection, with Coq theorems (no axioms): the detection bytes 0xFD/0x4C are never valid .lzma property bytes, auto = the specific decoder selected by the first byte, .lzma followed by anything is an error under CONCATENATED, the lzip dictionary code table and the picky dictionary-size rule. Tied to the C decoders by differential runs (status, content, input position just past the end) on generated files of every flavour, one-shot and sliced.',
+   note='PARTIAL: the LZMA1 core is shared with C03 (resumable decoder explored, not proved). .lz files are assembled by the harness (no encoder exists); end-marker-less .lzma streams come from the MicroLZMA encoder of the tree under test.',
+   technique='Coq executable specification + theorems; differential correspondence', ref='§6 C16')
 REASONS_PENDING = 'not yet built in this round (work in progress; see DESIGN.md §10 order of work)'
 props = [json.loads(l) for l in open(os.path.join(V, 'properties.jsonl'))]
 checks, na = [], []
